@@ -11,6 +11,7 @@ from hypothesis import strategies as st
 from vlib import gen, ref
 from vlib.case import hash_noise, make_grid, tdtype
 from vlib.core import EPS32, Facet, Skip, Violation, check_close, eps_of
+from vlib.findings import Known
 
 PROPERTY = "C14"
 MANIFEST = {
@@ -43,6 +44,9 @@ ASSUMPTIONS = [
 ]
 
 K = 64.0
+# N14-2 (subdivide_cubic_bspline rejects (N, C, X) tensors): if it is listed as a known finding instead of being
+# repaired, the subdivision generators leave out D = 1 so that the budget is spent behind it
+MIN_D_SUBDIVIDE = 2 if Known("C14").active("N14-2") else 1
 LIP = [1.0, 2.0, 4.0, 8.0]  # upper bounds of sum_m |w_m^(d)(t)| on [0,1) for derivative order d
 MAX_STRIDE = 16
 MAX_SIZE = 24
@@ -469,7 +473,7 @@ def run_deriv(case):
 
 @st.composite
 def subdivide_cases(draw):
-    D = draw(st.integers(2, 3))
+    D = draw(st.integers(MIN_D_SUBDIVIDE, 3))
     rounds_n = draw(st.integers(1, 3))
     letters = ["x", "y", "z"][:D]
     rounds = []
@@ -481,12 +485,15 @@ def subdivide_cases(draw):
             sub = draw(st.lists(st.integers(0, D - 1), min_size=1, max_size=D, unique=True))
             form = draw(st.sampled_from(["int", "str"]))
             rounds.append([letters[i] if form == "str" else i for i in sub])
-    hi = {1: 9, 2: 7, 3: 5}[rounds_n] if D == 2 else {1: 7, 2: 5, 3: 4}[rounds_n]
+    hi = {1: 9, 2: 7, 3: 5}[rounds_n] if D <= 2 else {1: 7, 2: 5, 3: 4}[rounds_n]
     touched = set()
     for r in rounds:
         touched |= set(range(D)) if r is None else {letters.index(d) if isinstance(d, str) else d for d in r}
-    # an axis that is subdivided needs >= 2 coefficients (one interval); untouched axes may be singletons
-    ncp = [draw(st.one_of(st.integers(2 if d in touched else 1, 3), st.integers(4, hi), st.integers(4, hi))) for d in range(D)]
+    # an axis that is subdivided needs >= 2 coefficients (one interval); untouched axes may be singletons;
+    # the first subdivided axis always has a spline domain (>= 4 coefficients)
+    first = min(touched)
+    ncp = [draw(st.integers(4, hi)) if d == first else
+           draw(st.one_of(st.integers(2 if d in touched else 1, 3), st.integers(4, hi), st.integers(4, hi))) for d in range(D)]
     return {"D": D, "ncp": ncp, "rounds": rounds, "N": draw(st.integers(1, 2)), "C": draw(st.integers(1, 3)),
             "dtype": draw(gen.dtypes()), "key": draw(st.integers(0, 10 ** 6)),
             "stride": draw(st.lists(st.integers(1, 8), min_size=D, max_size=D)),
@@ -679,7 +686,7 @@ def run_control_grid(case):
 
 @st.composite
 def ffd_subdivide_cases(draw):
-    g = draw(ffd_grids(min_size=2, max_size=10))
+    g = draw(ffd_grids(min_size=2, max_size=10, min_D=MIN_D_SUBDIVIDE))
     D = len(g["size"])
     rounds = []
     for _ in range(draw(st.sampled_from([1, 1, 2]))):
